@@ -77,12 +77,16 @@ type FuncSpec struct {
 	Line     int
 	Pkg      string
 	Opaque   bool // do not verify the body (contract only used by callers); listed as assumption
+	CSEnsures []Clause // critical-section postconditions: checked when a lock is released; old() = state at its acquisition
+	Rely      []Clause // assumed after every cond.Wait re-acquisition (interference assumption, listed in evidence)
 }
 
 type TypeSpec struct {
 	Name    string // resolved type string
 	Guarded map[string]string // field -> mutex field
 	LockInv map[string][]Clause // mutex field -> invariants over `self`
+	Stable  map[string][]Clause // mutex field -> two-state invariants (old = state at the previous release/acquisition)
+	CondOn  map[string]string   // field holding a *sync.Cond -> mutex field it is bound to
 	Invs    []Clause
 	Pkg     string
 }
@@ -99,13 +103,23 @@ type LemmaSpec struct {
 	Vars    []LemmaVar
 	Hyps    []Clause
 	Goal    Clause
+	Goals   []Clause
+	Uses    []UseSpec
 	Canary  bool
 	File    string
 	Pkg     string
 }
 type LemmaVar struct{ Name, Type string }
 
+// UseSpec: "uses F(args) (results)" — the postconditions of F's contract are hypotheses of the lemma.
+type UseSpec struct {
+	Key     string
+	Args    []string
+	Results []string
+}
+
 type SpecSet struct {
+	Globals map[string]string // pkg.Name -> "nonnil"
 	Funcs  map[string]*FuncSpec
 	Types  map[string]*TypeSpec
 	Pures  map[string]*PureSpec
@@ -114,7 +128,7 @@ type SpecSet struct {
 }
 
 func NewSpecSet() *SpecSet {
-	return &SpecSet{Funcs: map[string]*FuncSpec{}, Types: map[string]*TypeSpec{}, Pures: map[string]*PureSpec{}}
+	return &SpecSet{Globals: map[string]string{}, Funcs: map[string]*FuncSpec{}, Types: map[string]*TypeSpec{}, Pures: map[string]*PureSpec{}}
 }
 
 // ---------- lexer ----------
@@ -608,7 +622,7 @@ func (ss *SpecSet) ParseSpecFile(file, pkgPath string) error {
 			}
 			curT = ss.Types[n]
 			if curT == nil {
-				curT = &TypeSpec{Name: n, Guarded: map[string]string{}, LockInv: map[string][]Clause{}, Pkg: pkgPath}
+				curT = &TypeSpec{Name: n, Guarded: map[string]string{}, LockInv: map[string][]Clause{}, Stable: map[string][]Clause{}, CondOn: map[string]string{}, Pkg: pkgPath}
 				ss.Types[n] = curT
 			}
 		case "pure":
@@ -637,6 +651,21 @@ func (ss *SpecSet) ParseSpecFile(file, pkgPath string) error {
 			}
 			curL = &LemmaSpec{Name: name, Vars: vars, Canary: word == "canary", File: file, Pkg: pkgPath}
 			ss.Lemmas = append(ss.Lemmas, curL)
+		case "uses":
+			if curL == nil {
+				panic(fmt.Errorf("%s:%d: uses outside lemma", file, lno))
+			}
+			name, formals, results, e := parseFuncHeader(rest)
+			if e != nil {
+				panic(fmt.Errorf("%s:%d: %v", file, lno, e))
+			}
+			curL.Uses = append(curL.Uses, UseSpec{Key: qual(name), Args: formals, Results: results})
+		case "global":
+			f := strings.Fields(rest)
+			if len(f) != 2 {
+				panic(fmt.Errorf("%s:%d: global NAME nonnil", file, lno))
+			}
+			ss.Globals[pkgPath+"."+f[0]] = f[1]
 		case "property":
 			ps := strings.Fields(rest)
 			if curF != nil {
@@ -656,6 +685,7 @@ func (ss *SpecSet) ParseSpecFile(file, pkgPath string) error {
 				curL.Hyps = append(curL.Hyps, c)
 			case curL != nil && (word == "show" || word == "ensures"):
 				curL.Goal = c
+				curL.Goals = append(curL.Goals, c)
 			default:
 				panic(fmt.Errorf("%s:%d: %s outside block", file, lno, word))
 			}
@@ -734,6 +764,35 @@ func (ss *SpecSet) ParseSpecFile(file, pkgPath string) error {
 			f := strings.SplitN(rest, " ", 2)
 			lab, body := splitLabel(f[1])
 			curT.LockInv[f[0]] = append(curT.LockInv[f[0]], Clause{lab, mustExpr(file, lno, body), body})
+		case "stable":
+			if curT == nil {
+				panic(fmt.Errorf("%s:%d: stable outside type", file, lno))
+			}
+			f := strings.SplitN(rest, " ", 2)
+			lab, body := splitLabel(f[1])
+			curT.Stable[f[0]] = append(curT.Stable[f[0]], Clause{lab, mustExpr(file, lno, body), body})
+		case "cond":
+			// cond FIELD on MUTEX
+			if curT == nil {
+				panic(fmt.Errorf("%s:%d: cond outside type", file, lno))
+			}
+			f := strings.Fields(rest)
+			if len(f) != 3 || f[1] != "on" {
+				panic(fmt.Errorf("%s:%d: cond FIELD on MUTEX", file, lno))
+			}
+			curT.CondOn[f[0]] = f[2]
+		case "csensures":
+			if curF == nil {
+				panic(fmt.Errorf("%s:%d: csensures outside func", file, lno))
+			}
+			lab, body := splitLabel(rest)
+			curF.CSEnsures = append(curF.CSEnsures, Clause{lab, mustExpr(file, lno, body), body})
+		case "rely":
+			if curF == nil {
+				panic(fmt.Errorf("%s:%d: rely outside func", file, lno))
+			}
+			lab, body := splitLabel(rest)
+			curF.Rely = append(curF.Rely, Clause{lab, mustExpr(file, lno, body), body})
 		case "invariant":
 			lab, body := splitLabel(rest)
 			if curT == nil {
